@@ -1,6 +1,8 @@
 import Cpl.Spec.Ring
 import Cpl.Lemmas.Evolve1D
 import Cpl.Lemmas.Memo1D
+import Cpl.Lemmas.Memo2D
+import Cpl.Lemmas.Calls2D
 
 /-!
 # C09 — memoization invokes the rule at most once per distinct neighbourhood (1D part)
@@ -86,5 +88,173 @@ theorem memo_calls_le_plain [DecidableEq α] [Inhabited α] (f : List α → α)
     rw [hlog, List.nil_append] at a1
     subst a1
     exact a5
+
+end Cpl.C09
+
+/-!
+# C09 — 2D: `evolve2d` memoization invokes the rule at most once per distinct neighbourhood
+
+The calls are observed through `recorder2 f`, which appends `(n, (row, col), t)` to its state on every
+invocation; `n` is the neighbourhood as handed to the rule, i.e. *masked* for von Neumann (masked cells
+are `none`, so they do not count for the identity of a neighbourhood). `memoize=True` is keyed by the
+masked neighbourhood; `memoize='recursive'` is keyed by the *unmasked* block of states, so for von
+Neumann two calls may share the same masked neighbourhood (the blocks differ in masked corners only):
+there the duplicate-freeness is stated for the unmasked blocks, and for the neighbourhoods under Moore.
+-/
+
+namespace Cpl.C09
+open Cpl Cpl.Spec Cpl.Calls2D
+
+variable {α : Type}
+
+/-- All (masked) neighbourhoods that occur when stepping from each of the given `R × C` grids. -/
+def occurring2 [Inhabited α] (R C r : Nat) (vn : Bool) (grids : List (Grid α)) : List (Nbhd2 α) :=
+  grids.flatMap fun g => (cellsRowMajor R C).map fun c => nbhd g R C r vn c.1 c.2
+
+/-- **memoize=True invokes the rule exactly once for each distinct (masked) neighbourhood that occurs**
+    within one `evolve2d` call: the recorded neighbourhoods are duplicate-free and are exactly the
+    neighbourhoods `nbhd g R C r vn i j` of all cells of the grids that were stepped from (start grid
+    and all new grids but the last). -/
+theorem memo2_calls_exactly_once [DecidableEq α] [Inhabited α] (f : Nbhd2 α → α) (hist : List (Grid α))
+    (init : Grid α) (hlast : hist.getLast? = some init) (T : Nat) (hT : 1 ≤ T) (R C r : Nat)
+    (nb : NbType) (hnb : nb ≠ .unknown) (hg : Rect init R C) (hR1 : 1 ≤ R) (hC1 : 1 ≤ C) (hR : r ≤ R)
+    (hC : r ≤ C) (out : List (Grid α)) (log : List (Nbhd2 α × (Nat × Nat) × Nat))
+    (h : evolve2dFixed hist T (recorder2 f) r nb .memo [] = .ok (out, log)) :
+    (log.map (·.1)).Nodup ∧
+    ∀ n, n ∈ log.map (·.1) ↔
+      n ∈ occurring2 R C r (decide (nb = .vonNeumann))
+        ((init :: pureRun2 f R C r (decide (nb = .vonNeumann)) (T - 1) init).take (T - 1)) := by
+  have _ := hC1
+  rw [evolve2dFixed_eq (recorder2 f) .memo (by decide) hist init hlast T hT r nb hnb []] at h
+  have hlog : (fixedLoop2 .memo (recorder2 f) r (decide (nb = .vonNeumann)) (T - 1) 1 init
+      Caches2.empty []).2.2 = log := by
+    injection h with h; exact (Prod.mk.inj h).2
+  obtain ⟨⟨i1, i2⟩, i3, _⟩ := fixedLoop2_memo_calls f R C r (decide (nb = .vonNeumann)) hR1 hR hC (T - 1) 1
+    init Caches2.empty [] hg (CachesOK2_empty f r _) MemoInv2_nil
+  rw [hlog] at i1 i2
+  refine ⟨i1, fun n => ?_⟩
+  rw [i2 n, i3 n]
+  simp only [Caches2.empty, List.map_nil, List.not_mem_nil, false_or]
+  rfl
+
+/-- **memoize='recursive' invokes the rule at most once per cell within a step, only on neighbourhoods
+    that occur, and at most once per distinct unmasked block of states.** With
+    `grids = init :: pureRun2 … (T-1) init` (the grid stepped from at step `t` is `grids[t-1]`):
+    * within one step the recorded cells are duplicate-free;
+    * every recorded call is for a cell inside the grid, at a step `1 ≤ t ≤ T-1`, with exactly the
+      (masked) neighbourhood of that cell in the grid stepped from — in particular it occurs;
+    * the unmasked blocks `torusWindow grids[t-1] R C r row col` of the recorded calls are pairwise
+      different. -/
+theorem rec2_calls_at_most_once [DecidableEq α] [Inhabited α] (f : Nbhd2 α → α) (hist : List (Grid α))
+    (init : Grid α) (hlast : hist.getLast? = some init) (T : Nat) (hT : 1 ≤ T) (R C r : Nat)
+    (nb : NbType) (hnb : nb ≠ .unknown) (hg : Rect init R C) (hR1 : 1 ≤ R) (hC1 : 1 ≤ C) (hR : r ≤ R)
+    (hC : r ≤ C) (out : List (Grid α)) (log : List (Nbhd2 α × (Nat × Nat) × Nat))
+    (h : evolve2dFixed hist T (recorder2 f) r nb .recursive [] = .ok (out, log)) :
+    (∀ t, ((log.filter (fun e => e.2.2 = t)).map (·.2.1)).Nodup) ∧
+    (∀ e ∈ log, e.2.1.1 < R ∧ e.2.1.2 < C ∧ 1 ≤ e.2.2 ∧ e.2.2 ≤ T - 1 ∧
+      e.1 = nbhd ((init :: pureRun2 f R C r (decide (nb = .vonNeumann)) (T - 1) init)[e.2.2 - 1]!)
+              R C r (decide (nb = .vonNeumann)) e.2.1.1 e.2.1.2) ∧
+    (∀ n, n ∈ log.map (·.1) →
+      n ∈ occurring2 R C r (decide (nb = .vonNeumann))
+        ((init :: pureRun2 f R C r (decide (nb = .vonNeumann)) (T - 1) init).take (T - 1))) ∧
+    (log.map fun e =>
+      torusWindow ((init :: pureRun2 f R C r (decide (nb = .vonNeumann)) (T - 1) init)[e.2.2 - 1]!)
+        R C r e.2.1.1 e.2.1.2).Nodup := by
+  have _ := hC1
+  rw [evolve2dFixed_eq (recorder2 f) .recursive (by decide) hist init hlast T hT r nb hnb []] at h
+  have hlog : (fixedLoop2 .recursive (recorder2 f) r (decide (nb = .vonNeumann)) (T - 1) 1 init
+      Caches2.empty []).2.2 = log := by
+    injection h with h; exact (Prod.mk.inj h).2
+  obtain ⟨new, a1, a2, a3, a4, _⟩ := fixedLoop2_rec_calls f R C r (decide (nb = .vonNeumann)) hR1 hR hC
+    (T - 1) 1 init Caches2.empty [] [] hg (CachesOK2_empty f r _) RecInv2_nil
+  rw [hlog, List.nil_append] at a1
+  subst a1
+  have hall : ∀ e ∈ log, e.2.1.1 < R ∧ e.2.1.2 < C ∧ 1 ≤ e.2.2 ∧ e.2.2 ≤ T - 1 ∧
+      e.1 = nbhd ((init :: pureRun2 f R C r (decide (nb = .vonNeumann)) (T - 1) init)[e.2.2 - 1]!)
+              R C r (decide (nb = .vonNeumann)) e.2.1.1 e.2.1.2 := by
+    intro e he
+    obtain ⟨c1, c2, c3, c4, c5⟩ := a3 e he
+    exact ⟨c2, c3, c4, by omega, c1⟩
+  refine ⟨a4, hall, ?_, ?_⟩
+  · intro n hn
+    obtain ⟨e, he, rfl⟩ := List.mem_map.mp hn
+    obtain ⟨c1, c2, c3, c4, c5⟩ := hall e he
+    rw [c5]
+    unfold occurring2
+    rw [List.mem_flatMap]
+    refine ⟨_, getElem!_mem_take _ (e.2.2 - 1) (T - 1) (by omega)
+      (by simp [Dyn2D.pureRun2_length]; omega), ?_⟩
+    exact List.mem_map.mpr ⟨e.2.1, (Memo2D.mem_cellsRowMajor R C _).mpr ⟨c1, c2⟩, rfl⟩
+  · have := a2.1
+    rw [List.nil_append] at this
+    exact this
+
+/-- **Moore neighbourhood, memoize='recursive'**: nothing is masked, so the recorded neighbourhoods
+    themselves are duplicate-free (at most one call per distinct neighbourhood content). For von Neumann
+    this is *not* claimed: two blocks differing only in masked corners give the same masked neighbourhood
+    but different cache keys. -/
+theorem rec2_calls_nodup_moore [DecidableEq α] [Inhabited α] (f : Nbhd2 α → α) (hist : List (Grid α))
+    (init : Grid α) (hlast : hist.getLast? = some init) (T : Nat) (hT : 1 ≤ T) (R C r : Nat)
+    (hg : Rect init R C) (hR1 : 1 ≤ R) (hC1 : 1 ≤ C) (hR : r ≤ R) (hC : r ≤ C) (out : List (Grid α))
+    (log : List (Nbhd2 α × (Nat × Nat) × Nat))
+    (h : evolve2dFixed hist T (recorder2 f) r .moore .recursive [] = .ok (out, log)) :
+    (log.map (·.1)).Nodup := by
+  obtain ⟨_, h2, _, h4⟩ := rec2_calls_at_most_once f hist init hlast T hT R C r .moore (by decide) hg hR1
+    hC1 hR hC out log h
+  have hvn : decide (NbType.moore = NbType.vonNeumann) = false := by decide
+  rw [hvn] at h2 h4
+  unfold List.Nodup at h4 ⊢
+  rw [List.pairwise_map] at h4 ⊢
+  refine h4.imp_of_mem ?_
+  intro a b ha hb hab hcon
+  apply hab
+  have ea := (h2 a ha).2.2.2.2
+  have eb := (h2 b hb).2.2.2.2
+  rw [ea, eb, ← applyMask_torusWindow, ← applyMask_torusWindow] at hcon
+  simp only [Bool.false_eq_true, if_false, applyMask] at hcon
+  have hinj : ∀ x y : List α, x.map some = y.map some → x = y := by
+    intro x y hxy
+    exact (List.map_inj_right (fun _ _ h => Option.some.inj h)).mp hxy
+  exact (List.map_inj_right hinj).mp hcon
+
+/-- Never more calls than the unmemoized evolution makes (`R * C` per step), in either memo mode. -/
+theorem memo2_calls_le_plain [DecidableEq α] [Inhabited α] (f : Nbhd2 α → α) (mode : Mode)
+    (hm : mode = .memo ∨ mode = .recursive) (hist : List (Grid α))
+    (init : Grid α) (hlast : hist.getLast? = some init) (T : Nat) (hT : 1 ≤ T) (R C r : Nat)
+    (nb : NbType) (hnb : nb ≠ .unknown) (hg : Rect init R C) (hR1 : 1 ≤ R) (hC1 : 1 ≤ C) (hR : r ≤ R)
+    (hC : r ≤ C) (out : List (Grid α)) (log : List (Nbhd2 α × (Nat × Nat) × Nat))
+    (h : evolve2dFixed hist T (recorder2 f) r nb mode [] = .ok (out, log)) :
+    log.length ≤ R * C * (T - 1) := by
+  have _ := hC1
+  have hmb : mode ≠ .bad := by rcases hm with rfl | rfl <;> decide
+  rw [evolve2dFixed_eq (recorder2 f) mode hmb hist init hlast T hT r nb hnb []] at h
+  have hlog : (fixedLoop2 mode (recorder2 f) r (decide (nb = .vonNeumann)) (T - 1) 1 init
+      Caches2.empty []).2.2 = log := by
+    injection h with h; exact (Prod.mk.inj h).2
+  rcases hm with rfl | rfl
+  · obtain ⟨_, _, i4⟩ := fixedLoop2_memo_calls f R C r (decide (nb = .vonNeumann)) hR1 hR hC (T - 1) 1
+      init Caches2.empty [] hg (CachesOK2_empty f r _) MemoInv2_nil
+    rw [hlog] at i4
+    simpa using i4
+  · obtain ⟨new, a1, _, _, _, a5⟩ := fixedLoop2_rec_calls f R C r (decide (nb = .vonNeumann)) hR1 hR hC
+      (T - 1) 1 init Caches2.empty [] [] hg (CachesOK2_empty f r _) RecInv2_nil
+    rw [hlog, List.nil_append] at a1
+    subst a1
+    exact a5
+
+/-! ## Non-vacuity: under von Neumann, memoize='recursive' does call the rule twice on the same masked
+neighbourhood (a 4×4 grid with a single 1 at (0,0), `r = 1`, one step: cell (1,1) sees the 1 in a masked
+corner only, so its masked neighbourhood equals that of cell (2,2), but the cache keys differ);
+memoize=True and the Moore neighbourhood do not. -/
+example : ((evolve2dFixed [[[1, 0, 0, 0], [0, 0, 0, 0], [0, 0, 0, 0], [0, 0, 0, 0]]] 2
+      (recorder2 (fun _ => (0 : Nat))) 1 .vonNeumann .recursive []).toOption.map
+    (fun p => decide ((p.2.map (·.1)).Nodup))) = some false := by decide
+example : ((evolve2dFixed [[[1, 0, 0, 0], [0, 0, 0, 0], [0, 0, 0, 0], [0, 0, 0, 0]]] 2
+      (recorder2 (fun _ => (0 : Nat))) 1 .vonNeumann .memo []).toOption.map
+    (fun p => decide ((p.2.map (·.1)).Nodup))) = some true := by decide
+example : nbhd [[1, 0, 0, 0], [0, 0, 0, 0], [0, 0, 0, 0], [0, 0, 0, 0]] 4 4 1 true 1 1
+    = nbhd [[1, 0, 0, 0], [0, 0, 0, 0], [0, 0, 0, 0], [0, 0, 0, 0]] 4 4 1 true 2 2 := by decide
+example : torusWindow [[1, 0, 0, 0], [0, 0, 0, 0], [0, 0, 0, 0], [0, 0, 0, 0]] 4 4 1 1 1
+    ≠ torusWindow [[1, 0, 0, 0], [0, 0, 0, 0], [0, 0, 0, 0], [0, 0, 0, 0]] 4 4 1 2 2 := by decide
 
 end Cpl.C09
